@@ -612,6 +612,17 @@ def enumerated(tier):
                 yield {"noise": False, "ops": [base], "chunks": [{"t": 9, "msgs": [mm]}]}
                 # the same message followed, in the same chunk, by a connection change for the address
                 yield {"noise": handle == 2, "ops": [base], "chunks": [{"t": 9, "msgs": [mm, {"k": "conn", "addr": A, "connected": False, "mtu": 0, "error": 19}]}]}
+    # addresses are uint64 on the wire: beyond 48 bits, every failing ending
+    for big in (2**48, 2**48 + 0xAABBCC, 2**63 + 1, 2**64 - 1):
+        yield {"noise": False, "ops": [{"id": "op0", "kind": "read", "addr": big, "t": 2, "timeout": 1, "handle": 1, "dtimeout": 1, "flavour": "v1", "address_type": None, "end": "stop"}],
+               "chunks": [{"t": 9, "msgs": [{"k": "gatterr", "addr": big, "handle": 1, "error": 5}]}]}
+        yield {"noise": False, "ops": [{"id": "op0", "kind": "write", "addr": big, "t": 2, "timeout": 1, "handle": 1, "dtimeout": 1, "flavour": "v1", "address_type": None, "end": "stop", "response": True}],
+               "chunks": [{"t": 9, "msgs": [{"k": "conn", "addr": big, "connected": False, "mtu": 0, "error": 8}]}]}
+        yield {"noise": False, "ops": [{"id": "op0", "kind": "notify", "addr": big, "t": 2, "timeout": 1, "handle": 1, "dtimeout": 1, "flavour": "v1", "address_type": None, "end": "stop"}], "chunks": []}
+        for fl in ("v1", "v3cache"):
+            yield {"noise": False, "ops": [{"id": "op0", "kind": "connect", "addr": big, "t": 2, "timeout": 1, "dtimeout": 1, "flavour": fl, "address_type": 1 if fl == "v1" else None}], "chunks": []}
+            yield {"noise": False, "ops": [{"id": "op0", "kind": "connect", "addr": big, "t": 2, "timeout": 2, "dtimeout": 1, "flavour": fl, "address_type": 1 if fl == "v1" else None}],
+                   "chunks": [{"t": 9, "msgs": [{"k": "conn", "addr": big, "connected": False, "mtu": 0, "error": 8}]}]}
     # every status code -130..300 (described or not) as a GATT error for a pending read and as a drop reason for a pending write
     for code in list(range(-130, 301)) + [2**31 - 1, -(2**31)]:
         yield {"noise": False, "ops": [{"id": "op0", "kind": "read", "addr": A, "t": 2, "timeout": 1, "handle": 1, "dtimeout": 1, "flavour": "v1", "address_type": None, "end": "stop"}],
